@@ -23,7 +23,7 @@ META = {
              "contained in the other (pairs), >=2 non-empty inputs sharing an element (multi-way); distinct by content"),
     "require": {"quick": ["kernel_calls", "wrapper_calls", "many_calls", "insitu_workloads", "many:chain",
                           "presentation:strided", "presentation:view_in_buffer", "class:lopsided", "class:lopsided>32768",
-                          "class:views_of_one_buffer", "many:more_than_16_arrays",
+                          "class:views_of_one_buffer", "many:more_than_16_arrays", "class:buffers_refilled_in_place",
                           "threads:calls_overlapping_another_thread's_call",
                           "class:left_empty", "class:right_empty", "class:touching", "class:nested",
                           "class:interleaved", "class:identical"],
@@ -283,6 +283,23 @@ def run_shard(ctx):
                 ctx.sample({"a_head": a[:8].tolist(), "len_a": len(a), "b_head": b[:8].tolist(), "len_b": len(b)})
             if ctx.full():
                 return
+        # The same two buffers refilled IN PLACE between calls (same objects, same length, same first and last
+        # element, another interior), and short-lived operands whose addresses the allocator re-uses: a result
+        # remembered per operand identity is stale the second time.
+        for rep in range(6 if not s.get("long") else 2):
+            L = int(K.pickone(rng, [3, 5, 16, 200]))
+            lo_, hi_ = int(K.pickone(rng, [0, 7])), int(K.pickone(rng, [2 ** 32 - 1, 100000]))
+            A = numpy.zeros(L, dtype=U32)
+            B = numpy.zeros(L, dtype=U32)
+            for t in range(8):
+                for buf in (A, B):
+                    inner = numpy.sort(rng.choice(numpy.arange(lo_ + 1, min(hi_, lo_ + 4 * L + 2)), size=L - 2, replace=False)) if L > 2 else []
+                    buf[0], buf[-1] = lo_, hi_
+                    buf[1:-1] = inner
+                run_pair(ctx, so, A, B, "refilled")
+                ctx.count("class:buffers_refilled_in_place")
+                # ... and fresh short-lived arrays of the same shape (their addresses are re-used)
+                run_pair(ctx, so, A.copy(), B.copy(), "short-lived")
     elif kind == "many":
         top = 2 ** 32 - 1
         for n in range(s["n"]):
